@@ -622,6 +622,15 @@ Cmp1Clause(m, ev) ==
      ELSE IF ev.res # e THEN "comparison-" \o ev.rel
      ELSE "ok"
 
+\* one Duration operation performed by the repository's own tests
+DurOp1Clause(ev) ==
+  LET fr == ev.a.frac \/ ev.b.frac \/ ev.r.frac
+      Same(x, e) == IF fr THEN DurNear(x, e) ELSE DurSame(x, e) IN
+  CASE ev.k = "add" -> (IF Same(ev.r, DurAddFn(ev.a, ev.b)) THEN "ok" ELSE "suite-duration-add")
+    [] ev.k = "mul" -> (IF Same(ev.r, DurMulFn(ev.a, ev.n)) THEN "ok" ELSE "suite-duration-mul")
+    [] ev.k = "eq"  -> (IF fr \/ ev.res = DurEq(ev.a, ev.b) THEN "ok" ELSE "suite-duration-eq")
+    [] OTHER -> "unknown-duration-op"
+
 \* ---------------------------------------------------------------------- the step relation
 Clause(ev) ==
   CASE ev.op = "Begin"    -> "ok"
@@ -668,6 +677,7 @@ Clause(ev) ==
     [] ev.op = "CliBad"   -> CliBadClause(ev)
     [] ev.op = "CliRec"   -> CliRecClause(ev)
     [] ev.op = "ParseTrunc" -> ParseTruncClause(ev)
+    [] ev.op = "DurOp1"   -> DurOp1Clause(ev)
     [] ev.op = "Cmp1"     -> Cmp1Clause(mode, ev)
     [] ev.op = "SuiteEnd" -> "ok"
     [] ev.op = "Raised"   -> "raised-" \o ev.cls
